@@ -14,17 +14,17 @@ from .tla import SPEC_DIR, jsonable, run_tlc
 
 _BASE = {}
 # element name -> (table, row index) ; fixed by build()
-ROW = {"e0": ("ext_grid", 0), "g0": ("gen", 0), "g1": ("gen", 1), "g2": ("gen", 2), "sg0": ("sgen", 0), "sg1": ("sgen", 1),
+ROW = {"e0": ("ext_grid", 0), "g0": ("gen", 0), "g1": ("gen", 1), "g2": ("gen", 2), "g3": ("gen", 3), "sg0": ("sgen", 0), "sg1": ("sgen", 1),
        "ld0": ("load", 0), "ld1": ("load", 1), "ld2": ("load", 2), "ld3": ("load", 3), "st0": ("storage", 0), "mo0": ("motor", 0),
        "sh0": ("shunt", 0), "wa0": ("ward", 0), "xw0": ("xward", 0), "al0": ("asymmetric_load", 0), "as0": ("asymmetric_sgen", 0),
        "l0": ("line", 0), "l1": ("line", 1), "l2": ("line", 2), "l3": ("line", 3), "t0": ("trafo", 0), "w0": ("trafo3w", 0),
        "i0": ("impedance", 0), "z0": ("switch", 1), "d0": ("dcline", 0)}
-NODES = ["e0", "g0", "g1", "g2", "sg0", "sg1", "ld0", "ld1", "ld2", "ld3", "st0", "mo0", "sh0", "wa0", "xw0", "al0", "as0"]
+NODES = ["e0", "g0", "g1", "g2", "g3", "sg0", "sg1", "ld0", "ld1", "ld2", "ld3", "st0", "mo0", "sh0", "wa0", "xw0", "al0", "as0"]
 TERMS = {"l0": ("from", "to"), "l1": ("from", "to"), "l2": ("from", "to"), "l3": ("from", "to"), "t0": ("hv", "lv"),
          "w0": ("hv", "mv", "lv"), "i0": ("from", "to"), "z0": ("from", "to"), "d0": ("from", "to")}
 TNAME = {"from": "f", "to": "t", "hv": "h", "mv": "m", "lv": "l"}
-WEIGHTS = {1: {"e0": 1, "g0": 0, "g1": 0, "g2": 0, "xw0": 0}, 2: {"e0": 1, "g0": 2, "g1": 0, "g2": 1, "xw0": 1},
-           3: {"e0": 2, "g0": 1, "g1": 3, "g2": 0, "xw0": 2}}
+WEIGHTS = {1: {"e0": 1, "g0": 0, "g1": 0, "g2": 0, "g3": 0, "xw0": 0}, 2: {"e0": 1, "g0": 2, "g1": 0, "g2": 1, "g3": 0, "xw0": 1},
+           3: {"e0": 2, "g0": 1, "g1": 3, "g2": 0, "g3": 1, "xw0": 2}}
 ZIP = {"p": (0, 0), "mix": (30, 20), "z": (100, 0)}       # (const_z_percent, const_i_percent)
 
 
@@ -50,6 +50,7 @@ def build():
     pp.create_gen(net, b[1], 1.0, vm_pu=1.01, slack_weight=0.0)
     pp.create_gen(net, b[1], 0.5, vm_pu=1.01, slack_weight=0.0)
     pp.create_gen(net, b[2], 0.8, vm_pu=1.005, slack_weight=0.0)
+    pp.create_gen(net, b[0], 0.3, vm_pu=1.02, slack_weight=0.0)               # g3: at the ext_grid's bus, same setpoint
     pp.create_sgen(net, b[2], 0.8, 0.1)
     pp.create_sgen(net, b[1], 0.3, 0.0, scaling=2.0)
     pp.create_load(net, b[1], 2.0, 0.5)
@@ -86,10 +87,16 @@ def apply(cfg):
     sc = 1.0 if cfg["scal"] == "one" else 0.5
     net.load.at[0, "scaling"] = sc
     net.sgen.at[0, "scaling"] = sc
+    net.gen.at[2, "scaling"] = sc
+    net.sn_mva = float(cfg.get("sn", 1))
+    if cfg.get("shpq", "std") == "equal":
+        net.shunt.at[0, "p_mw"] = 0.4
+        net.shunt.at[0, "q_mvar"] = 0.4
     net.shunt.at[0, "vn_kv"] = 20.0 if cfg["shvn"] == "bus" else 19.0
     lim = 0.3 if cfg["qtight"] else 50.0
     net.gen["min_q_mvar"] = -lim
     net.gen["max_q_mvar"] = lim
+    net.gen.at[3, "min_q_mvar"], net.gen.at[3, "max_q_mvar"] = -50.0, 50.0     # reference-bus machines are not limited
     for name, w in WEIGHTS[cfg["wts"]].items():
         tab, i = ROW[name]
         net[tab].at[i, "slack_weight"] = float(w)
@@ -104,7 +111,7 @@ def solve(net, cfg):
         else:
             pp.runpp(net, voltage_depend_loads=bool(cfg["vdl"]), trafo_model=cfg["tmodel"], enforce_q_lims=bool(cfg["qlims"]),
                      distributed_slack=bool(cfg["dslack"]), calculate_voltage_angles=True, tolerance_mva=1e-10, max_iteration=60,
-                     init="dc")
+                     init="dc", **({} if cfg.get("ls2g", True) else {"lightsim2grid": False}))
         return bool(net.converged), ""
     except Exception as e:  # noqa
         return False, type(e).__name__
@@ -144,7 +151,7 @@ def observe(cfg):
     # inputs of the response laws (from the element tables as the power flow saw them)
     inp = out["inp"]
     inp["e0"] = {"vm": fx(net.ext_grid.at[0, "vm_pu"]), "va": fx(net.ext_grid.at[0, "va_degree"]), "w": int(net.ext_grid.at[0, "slack_weight"])}
-    for n in ("g0", "g1", "g2"):
+    for n in ("g0", "g1", "g2", "g3"):
         i = ROW[n][1]
         inp[n] = {"p": fx(net.gen.at[i, "p_mw"]), "sc": fx(net.gen.at[i, "scaling"]), "vm": fx(net.gen.at[i, "vm_pu"]),
                   "qmin": fx(net.gen.at[i, "min_q_mvar"]), "qmax": fx(net.gen.at[i, "max_q_mvar"]), "w": int(net.gen.at[i, "slack_weight"])}
